@@ -104,7 +104,7 @@ func qaC21gate(c *Ctx) {
 	construct := "releases of localStreamLimits.gate ⊆ {(*quic.localStreamLimits).unlock}"
 	for fn, ins := range c.CallersMatching("(*quic.gate).unlock", "(*quic.gate).unlockFunc") {
 		for _, in := range ins {
-			args := in.(ssa.CallInstruction).Common().Args
+			args := BaselineArgs(in.(ssa.CallInstruction).Common())
 			if len(args) == 0 || !isGate(args[0]) {
 				continue
 			}
